@@ -1,6 +1,188 @@
-import Summer.Model.Run
--- placeholder until the proof worker delivers (replaced by the real file)
-namespace Summer.Props.C01
-theorem placeholder : True := trivial
-end Summer.Props.C01
-#print axioms Summer.Props.C01.placeholder
+import Summer.Proofs.Rates
+/-
+C01 — rates follow the documented per-flow laws.
+
+Model: `Summer.Run` (`realised`, `staticFlowWeights`, `flowWeights`, `prepare`, `flowRates`,
+`compRates`).  Specification: `Summer.Spec` (`Summer/Spec/Rates.lean`), written from the documentation
+and independent of the runner's index tables.
+-/
+namespace Summer.C01
+open Summer Summer.Run Summer.Spec Summer.Proofs
+
+/-! ## 1–2. realised weights.  Generic over the core arithmetic classes (so also valid for `Float`). -/
+
+section weights
+variable {α : Type} [Zero α] [One α] [Add α] [Sub α] [Mul α] [Div α] [LT α] [DecidableLT α]
+
+/-- The realised parameter of a flow evaluates (as an optional value) to the documented adjustment
+rule: the value of the last `Overwrite` (or of the flow's own parameter if there is none) times the
+`Multiply` adjustments that follow it, in order.  It is undefined exactly when that base or one of
+those multipliers is undefined; whatever precedes the last `Overwrite` is irrelevant, including its
+definedness. -/
+theorem weight_chain (f : Flow α) (env : Env α) : (realised f).eval env = Spec.weight f env :=
+  realised_eval_eq_weight f env
+
+/-- the same, for the "left-to-right pass over optional values" reading of the rule -/
+theorem weight_chain_fold (f : Flow α) (env : Env α) : (realised f).eval env = Spec.weightFold f env :=
+  realised_eval_eq_weightFold f env
+
+/-- the two readings of the documented rule agree -/
+theorem weight_readings_agree (f : Flow α) (env : Env α) : Spec.weight f env = Spec.weightFold f env := by
+  rw [← weight_chain, weight_chain_fold]
+
+omit [One α] in
+/-- Coincidence: an expression without model variables does not see time or state. -/
+theorem static_coincidence (e : Expr α) (h : e.usesModelVars = false) (p : List (String × α)) (t t' : α)
+    (x x' : List α) : e.eval ⟨p, t, x⟩ = e.eval ⟨p, t', x'⟩ :=
+  eval_coincidence p t t' x x' e h
+
+/-- Delivery: whichever side of the static / time-varying partition a flow falls on, the weight
+vector handed to `flowRates` is the list of the values of the realised parameters in the current
+environment (and it is undefined iff one of them is). -/
+theorem weight_delivery (m : Model α) (env : Env α) (static : List α)
+    (hs : staticFlowWeights m env.params = some static) :
+    flowWeights m env static = m.flows.mapM (fun f => (realised f).eval env) :=
+  flowWeights_eq_mapM m env env.params static rfl hs
+
+/-- entry-wise form of `weight_delivery` -/
+theorem weight_delivery_entry (m : Model α) (env : Env α) (static w : List α)
+    (hs : staticFlowWeights m env.params = some static) (hw : flowWeights m env static = some w) :
+    w.length = m.flows.length ∧
+      ∀ i (hi : i < m.flows.length), Spec.weight m.flows[i] env = some (w.getD i 0) := by
+  rw [weight_delivery m env static hs] at hw
+  obtain ⟨h1, h2⟩ := mapM_option_some _ _ _ hw
+  refine ⟨h1, fun i hi => ?_⟩
+  rw [← weight_chain, h2 i hi (by omega), getD_eq_getElem]
+
+end weights
+
+/-! ## 3–4. flow rates and compartment rates -/
+
+/-- `prepare` produces a backend whose index tables satisfy the explicit well-formedness predicate
+(purely structural: no arithmetic). -/
+theorem backend_wf {α : Type} (m : Model α) (b : Backend) (h : prepare m = .ok b) : Spec.BackendFor m b :=
+  backendFor_of_prepare m b h
+
+section rates
+/- Only the field axioms are needed for the rate laws, so these hold in particular over every ordered
+field (`[Field α] [LinearOrder α] [IsStrictOrderedRing α]`). -/
+variable {α : Type} [Field α]
+
+/-- the multiplier vector computed by the runner has one entry per infection flow -/
+theorem multipliers_length (m : Model α) (b : Backend) (h : prepare m = .ok b) (x : List α) (mix : Matrix α)
+    (ci : List α) : (infectiousMultipliers b x mix ci).1.length = Spec.nInfection m :=
+  infectiousMultipliers_length (backendFor_of_prepare m b h) x mix ci
+
+theorem flowRates_length (m : Model α) (b : Backend) (h : prepare m = .ok b) (w xc mults : List α)
+    (hw : w.length = m.flows.length) : (flowRates b w xc mults).length = m.flows.length :=
+  Proofs.flowRates_length (backendFor_of_prepare m b h) w xc mults hw
+
+/-- Every flow's rate is the documented law for its kind:
+transition/death `w·x[src]`; infection `w·x[src]·mult`; crude birth `w·Σx`; import/absolute `w`;
+replacement birth `w·(total death rate)`.
+
+Hypotheses: the backend comes from `prepare`; every population-proportional flow has a source
+(`sourcedOk`, decidable, true of all API-built models); one weight per flow; one multiplier per
+infection flow. -/
+theorem flowRates_eq_spec (m : Model α) (b : Backend) (h : prepare m = .ok b) (hs : Spec.sourcedOk m = true)
+    (w xc mults : List α) (hw : w.length = m.flows.length) (hm : mults.length = Spec.nInfection m)
+    (i : Nat) (hi : i < m.flows.length) :
+    (flowRates b w xc mults).getD i 0 = Spec.flowRate m w xc mults i m.flows[i] := by
+  have hb := backendFor_of_prepare m b h
+  rw [flowRates_getD hb w xc mults hw i hi, genRate_eq_flowRate hb hs w xc mults hm i hi]
+
+/-- the same from the explicit predicate instead of `prepare` -/
+theorem flowRates_eq_spec_of_wf (m : Model α) (b : Backend) (hb : Spec.BackendFor m b)
+    (hs : Spec.sourcedOk m = true) (w xc mults : List α) (hw : w.length = m.flows.length)
+    (hm : mults.length = Spec.nInfection m) (i : Nat) (hi : i < m.flows.length) :
+    (flowRates b w xc mults).getD i 0 = Spec.flowRate m w xc mults i m.flows[i] := by
+  rw [flowRates_getD hb w xc mults hw i hi, genRate_eq_flowRate hb hs w xc mults hm i hi]
+
+theorem compRates_length (m : Model α) (b : Backend) (h : prepare m = .ok b) (r : List α) :
+    (compRates b r).length = m.comps.length :=
+  Proofs.compRates_length (backendFor_of_prepare m b h) r
+
+/-- The rate of compartment `c` is the sum of the rates of the flows into it minus the sum of the
+rates of the flows out of it (a self-loop appears in both sums and cancels).  No hypothesis on the
+length of `r`: both sides pair flows with rates positionally and ignore the excess. -/
+theorem compRates_eq_spec (m : Model α) (b : Backend) (h : prepare m = .ok b) (r : List α) (c : Nat)
+    (hc : c < m.comps.length) :
+    (compRates b r).getD c 0 = Spec.inflow m r c - Spec.outflow m r c :=
+  compRates_getD_spec (backendFor_of_prepare m b h) r c hc
+
+end rates
+
+/-! ## non-vacuity: a concrete SIR model with six kinds of flow, evaluated on `Rat` -/
+
+section example_
+def cS : Comp := ⟨"S", []⟩
+def cI : Comp := ⟨"I", []⟩
+def cR : Comp := ⟨"R", []⟩
+
+/-- S, I, R with: frequency-dependent infection, recovery (whose rate has been multiplied, overwritten
+and multiplied again), death from I, replacement births into S, imports into I and an absolute
+"waning" flow R → S whose rate is the current time. -/
+def exModel : Model Rat :=
+  { t0 := 0, t1 := 10, dt := 1, nTimes := 11,
+    comps := [cS, cI, cR], origNames := ["S", "I", "R"], infectious := ["I"],
+    flows := [
+      { kind := .infFreq, name := "infection", src := some cS, dst := some cI, param := .param "beta", adjs := [] },
+      { kind := .transition, name := "recovery", src := some cI, dst := some cR, param := .param "gamma",
+        adjs := [.mul (.const 3), .ovr (.const (1/4)), .mul (.const 2)] },
+      { kind := .death, name := "death", src := some cI, dst := none, param := .const (1/10), adjs := [] },
+      { kind := .replBirth, name := "births", src := none, dst := some cS, param := .const 1, adjs := [] },
+      { kind := .importF, name := "imports", src := none, dst := some cI, param := .const 5, adjs := [] },
+      { kind := .absolute, name := "waning", src := some cR, dst := some cS, param := .time, adjs := [] } ],
+    strats := [], mixingCats := [[]], mixingMats := [], strains := ["default"],
+    initDist := none, arrayPop := none, actions := [], requests := [], computed := [], whitelist := [],
+    finalized := true }
+
+def exBackend : Backend :=
+  { nComps := 3, nFlows := 6, populationIdx := [0, 1, 1, 0, 0, 2], nonPopIdx := [3, 4, 5], crudeIdx := [],
+    replIdx := [3], deathIdx := [2], infFlowIdx := [0],
+    posMap := [(0, 1), (1, 2), (3, 0), (4, 1), (5, 0)], negMap := [(0, 0), (1, 1), (2, 1), (5, 2)],
+    catIdx := [[0, 1, 2]], categoryLookup := [0, 0, 0], strainInfIdx := [[1]], strainCatIdx := [[[0]]],
+    infStrainLookup := [0], infCatLookup := [0], procType := some true }
+
+def exParams : List (String × Rat) := [("beta", 2), ("gamma", 7)]
+
+/-- the hypotheses of the theorems are satisfied -/
+example : prepare exModel = .ok exBackend := by rfl
+example : Spec.sourcedOk exModel = true := by decide
+example : Spec.nInfection exModel = 1 := by decide
+
+/-- one evaluation of the right-hand side at `t = 3`, state `[90, 10, -1]` (cleaned to `[90, 10, 0]`):
+weights, multipliers, flow rates, compartment rates -/
+example : (step exModel exBackend exParams 3 [90, 10, -1]).map
+      (fun o => (o.weights, o.mults, o.flowRates, o.compRates)) =
+    some ([2, 1/2, 1/10, 1, 5, 3], [1/10], [18, 5, 1, 1, 5, 3], [-14, 17, 2]) := by decide +kernel
+
+/-- and the specification computes the same numbers independently -/
+example : (List.range 6).map (fun i =>
+      Spec.flowRate exModel [2, 1/2, 1/10, 1, 5, 3] [90, 10, 0] [1/10] i (exModel.flows.getD i exModel.flows[0])) =
+    [18, 5, 1, 1, 5, 3] := by decide +kernel
+example : (List.range 3).map (fun c =>
+      Spec.inflow exModel [18, 5, 1, 1, 5, 3] c - Spec.outflow exModel [18, 5, 1, 1, 5, 3] c) =
+    [-14, 17, 2] := by decide +kernel
+example : exModel.flows.map (fun f => Spec.weight f ⟨exParams, 3, [90, 10, 0]⟩) =
+    [some 2, some (1/2), some (1/10), some 1, some 5, some 3] := by decide +kernel
+/-- an `Overwrite` hides an undefined earlier value: "gamma" is missing here, the weight is still 1/2 -/
+example : Spec.weight exModel.flows[1] ⟨[("beta", 2)], 3, [90, 10, 0]⟩ = some (1/2) ∧
+    Spec.weight exModel.flows[0] ⟨[], 3, [90, 10, 0]⟩ = none := by decide +kernel
+end example_
+
+#print axioms weight_chain
+#print axioms weight_chain_fold
+#print axioms weight_readings_agree
+#print axioms static_coincidence
+#print axioms weight_delivery
+#print axioms weight_delivery_entry
+#print axioms backend_wf
+#print axioms multipliers_length
+#print axioms flowRates_length
+#print axioms flowRates_eq_spec
+#print axioms flowRates_eq_spec_of_wf
+#print axioms compRates_length
+#print axioms compRates_eq_spec
+
+end Summer.C01
